@@ -2,6 +2,7 @@
 import bitprov
 import a4_header
 import a4_twin
+import io_words
 import json, os
 from vlib.core import VERIF
 
@@ -22,11 +23,16 @@ def run(facts, tier):
     obs += o
     rules.append({"rule": "writer-twin", "instances": len([x for x in o if x["status"] != "info"]), "min": 20,
                   "text": "stream writer and byte writer of one type are twin programs modulo the write primitive (fields, widths, order, conditions, state flowing into the image)"})
+    exc = json.load(open(os.path.join(VERIF, "spec", "io_words_exceptions.json")))
+    o = io_words.obligations(facts, {k: v for k, v in exc.items() if not k.startswith("_")})
+    obs += o
+    rules.append({"rule": "io-words", "instances": len([x for x in o if x["status"] != "info"]), "min": 28,
+                  "text": "every linear layout a writer can emit (fixed runs, raw / serde / nested parts, loops) is one of the layouts the corresponding reader consumes, for the stream and the byte forms"})
     return {
         "level": "other",
         "rules": rules,
         "obligations": obs,
-        "explanation": "Static sibling-agreement rules over the typed AST of every serializer: bit-provenance abstract interpretation of the 63 pack/unpack routines (exhaustive over all bits, no execution), header rule over all byte writers. Decides structural necessary conditions of the round trip, not observational equality of restored sketches.",
+        "explanation": "Static sibling-agreement rules over the typed AST of every serializer: bit-provenance abstract interpretation of the 63 pack/unpack routines (exhaustive over all bits, no execution), header rule over all byte writers, writer twins, and inclusion of every writer layout word in the reader's set of accepted words (path enumeration over both bodies, conditions ignored). Decides structural necessary conditions of the round trip, not observational equality of restored sketches.",
         "assumptions": ["clang 14 front end; tools/dsx exporter faithful", "pack_bits_N precondition: bits >= N of each input are zero (documented)",
                         "only instantiations present in drivers/ are analysed"],
     }
